@@ -79,6 +79,14 @@ class Rewriter(ast.NodeTransformer):
     def visit_Call(self, node):
         self.generic_visit(node)
         f = node.func
+        if isinstance(f, ast.Name) and f.id == 'sum' and len(node.args) == 1 and isinstance(node.args[0], ast.GeneratorExp) \
+                and len(node.args[0].generators) == 1 and not node.args[0].generators[0].ifs \
+                and isinstance(node.args[0].generators[0].target, ast.Name):
+            g = node.args[0]
+            self._note('sum-gen', node)
+            lam = ast.Lambda(args=ast.arguments(posonlyargs=[], args=[ast.arg(arg=g.generators[0].target.id)], kwonlyargs=[], kw_defaults=[], defaults=[]),
+                             body=g.elt)
+            return ast.copy_location(ast.Call(func=ast.Name(id='__sym_sum_gen', ctx=ast.Load()), args=[lam, g.generators[0].iter], keywords=[]), node)
         if isinstance(f, ast.Attribute) and f.attr == 'join' and len(node.args) == 1 and not node.keywords:
             self._note('join', node)
             return ast.copy_location(ast.Call(func=ast.Name(id='__sym_join', ctx=ast.Load()),
